@@ -279,9 +279,9 @@ def selftest(ctx):
                 continue
             e["fentry"] = others[0]                                    # wrong entry block
         elif kind == 6:
-            e["blocks"] = e["blocks"][:-1]                             # a block vanishes (edges to it dangle)
-            if not e["blocks"]:
+            if len(e["blocks"]) < 2:
                 continue
+            e["blocks"] = e["blocks"][:-1]                             # a block vanishes (edges to it dangle)
         else:
             if r0["out"]["k"] not in ("limit", "exit") or len(r0["pcs"]) < 3:
                 continue
